@@ -108,3 +108,27 @@ def drive(loop, env, chooser, goal, *, faults=lambda: [], on_step=None,
         else:
             env.log.append('!' + lab)
             fn()
+
+
+class ChoiceSet(set):
+    """A set whose pop() order is owned by the explorer (free choice) instead of
+    depending on id()-based hashing.  ``keyfn`` gives a deterministic sort key."""
+
+    def __init__(self, chooser, keyfn, label):
+        super().__init__()
+        self._chooser, self._keyfn, self._label = chooser, keyfn, label
+
+    def pop(self):
+        if not self:
+            raise KeyError('pop from an empty set')
+        items = sorted(self, key=self._keyfn)
+        if len(items) == 1:
+            pick = 0
+        else:
+            pick = self._chooser.choose(self._label, [0] * len(items))
+        item = items[pick]
+        self.remove(item)
+        return item
+
+    def __iter__(self):
+        return iter(sorted(set.__iter__(self), key=self._keyfn))
